@@ -73,9 +73,11 @@ handshake (identified with its secret's name), the registered message types, and
 decodeBytes checks for a missing Anything (regenerated from the code) -/
 structure Conn where
   k        : Nat
-  pk       : Nat
+  pk       : Nat                -- the REMOTE endpoint's signing key, as presented in the handshake
   known    : Nat → Bool
   checkAny : Bool := true
+  self     : Nat := 0           -- this endpoint's own signing key on this connection
+  drains   : Bool := true       -- errc keeps being read after client.run has returned (regenerated)
 
 /-- one frame through decryptPipe, decodeBytes (with verifyFn), the second bls.Verify -/
 def recvFrame (c : Conn) : Frame → Outcome
@@ -95,9 +97,10 @@ def recvFrame (c : Conn) : Frame → Outcome
         else if p.sig ≠ .good c.pk a.value then .err .sig     -- bls.Verify again in decodePipe
         else .deliver { typ := a.typ, value := a.value, sender := p.sender, nonce := p.nonce, reply := p.reply }
 
-/-- the connection as a whole: `client.run` consumes ONE error from `errc` and returns; nobody
-reads `errc` afterwards, so the stage that reports a second error blocks for good (until the
-idle timer) and nothing behind it is processed.  A framing error ends readPipe. -/
+/-- the connection as a whole.  `client.run` takes ONE error from `errc` and returns.  As the code
+was, nobody read `errc` afterwards, so the stage reporting a second error blocked for good (until
+the idle timer) and nothing behind it was processed (`drains = false`); the repaired `run` leaves
+a reader behind (`drains = true`).  A framing error ends readPipe in both. -/
 structure RState where
   errs    : Nat := 0
   stalled : Bool := false
@@ -113,7 +116,7 @@ def rstep (c : Conn) (st : RState) (f : Frame) : RState :=
   | .panic _ => { st with crashed := true }
   | .err e =>
     if e = .framing then { st with errs := st.errs + 1, stalled := true }
-    else if st.errs = 0 then { st with errs := 1 }
+    else if st.errs = 0 ∨ c.drains = true then { st with errs := st.errs + 1 }
     else { st with errs := st.errs + 1, stalled := true }
 
 def recvAll (c : Conn) (fs : List Frame) : RState := fs.foldl (rstep c) {}
@@ -137,14 +140,18 @@ def delivered (sender : Bytes) (m : Msg) (nonce : Nat) (reply : Bool) : Delivery
   { typ := m.typ, value := m.value, sender := sender, nonce := nonce, reply := reply }
 
 /-- what a man in the middle who knows neither the session key `k` nor any signing key can put
-on the wire after seeing `sent`: verbatim copies (in any order, any number of times), byte strings
-that are not a Seal output (altered / truncated / random frames), damage to the framing, and
-frames sealed under keys other than `k`. -/
-inductive Derivable (k : Nat) (sent : List Frame) : Frame → Prop
-  | copy {f : Frame} : f ∈ sent → Derivable k sent f
-  | raw (n : Nat) : Derivable k sent (.raw n)
-  | broken : Derivable k sent .broken
-  | otherKey {k' : Nat} {pt : Plain} : k' ≠ k → Derivable k sent (.sealed k' pt)
+on the wire towards the receiver, after seeing `sent` (what the REMOTE endpoint sent on this
+connection) and `own` (what the receiver ITSELF sent on it — both directions use the same key and
+the same fixed nonce, so these open too): verbatim copies of either (any order, any number of
+times), byte strings that are not a Seal output (altered / truncated / random frames), damage to
+the framing, and frames sealed under keys other than `k` (this includes every frame of any other
+connection, also between the same two endpoints: each connection has its own key pair). -/
+inductive Derivable (k : Nat) (sent own : List Frame) : Frame → Prop
+  | copy {f : Frame} : f ∈ sent → Derivable k sent own f
+  | reflect {f : Frame} : f ∈ own → Derivable k sent own f
+  | raw (n : Nat) : Derivable k sent own (.raw n)
+  | broken : Derivable k sent own .broken
+  | otherKey {k' : Nat} {pt : Plain} : k' ≠ k → Derivable k sent own (.sealed k' pt)
 
 /-! ### driver -/
 
@@ -155,7 +162,11 @@ def knownType (t : Nat) : Bool := t < nTypes
 as the value -/
 def msgOf (i t : Nat) : Msg := { typ := t, value := natBE 4 i }
 
-def theConn (checkAny : Bool) : Conn := { k := 1, pk := 7, known := knownType, checkAny := checkAny }
+/-- B's view of the connection (remote = A, key 7; own key 8) and A's view of the same connection -/
+def theConn (checkAny : Bool) (drains : Bool := true) : Conn :=
+  { k := 1, pk := 7, known := knownType, checkAny := checkAny, self := 8, drains := drains }
+def connA (checkAny drains : Bool) : Conn :=
+  { k := 1, pk := 8, known := knownType, checkAny := checkAny, self := 7, drains := drains }
 
 def goodFrame (i t : Nat) : Frame := pack 7 1 [] (msgOf i t) i false
 
@@ -174,23 +185,35 @@ structure Tamper where
   before : List Frame := []   -- injected before the frame
   self   : Option Frame := none  -- replacement of the frame itself (none = untouched)
   after  : List (Option Frame) := []   -- inserted after it (none = a verbatim copy of the frame)
+  answer : Bool := false      -- B answers this message with a Reply …
+  bounce : Bool := false      -- … which the man in the middle also sends back to B
 
-def applyOp (n : Nat) (tab : Nat → Tamper) (op : String) : Option (Nat → Tamper) :=
+/-- B's reply to message `i`, as B packs it (signed with B's key 8) -/
+def replyFrame (i : Nat) : Frame := pack 8 1 [] { typ := 1, value := natBE 4 i } i true
+
+structure MitmOps where
+  tab    : Nat → Tamper := fun _ => {}
+  mirror : List Nat := []     -- A→B frames sent back to A once the last frame has gone through
+  damage : Bool := false      -- some op breaks the framing: the harness stops there
+
+def applyOp (n : Nat) (o : MitmOps) (op : String) : Option MitmOps :=
   let kind := (op.take 1).toString
   match ((op.drop 1).toString.splitOn ":").mapM String.toNat? with
   | some (i :: _) =>
     if i > n then none else
-    let t := tab i
-    let t' : Option Tamper := match kind with
-      | "F" => some { t with self := if t.self = some .broken then t.self else some (.raw 1) }
-      | "T" => some { t with self := if t.self = some .broken then t.self else some (.raw 2) }
-      | "H" => some { t with self := some .broken }
-      | "X" => some { t with self := some .broken }
-      | "D" => some { t with after := t.after ++ [some (.raw 3)] }
-      | "I" => some { t with before := t.before ++ [.raw 4] }
-      | "R" => some { t with after := t.after ++ [none] }
-      | _ => none
-    t'.map fun t' => fun j => if j = i then t' else tab j
+    let t := o.tab i
+    let upd := fun (t' : Tamper) => { o with tab := fun j => if j = i then t' else o.tab j }
+    match kind with
+    | "F" => some (upd { t with self := if t.self = some .broken then t.self else some (.raw 1) })
+    | "T" => some (upd { t with self := if t.self = some .broken then t.self else some (.raw 2) })
+    | "H" => some { upd { t with self := some .broken } with damage := true }
+    | "X" => some { upd { t with self := some .broken } with damage := true }
+    | "D" => some (upd { t with after := t.after ++ [some (.raw 3)] })
+    | "I" => some (upd { t with before := t.before ++ [.raw 4] })
+    | "R" => some (upd { t with after := t.after ++ [none] })
+    | "V" => some (upd { t with answer := true, bounce := true })
+    | "M" => some { o with mirror := o.mirror ++ [i] }
+    | _ => none
   | _ => none
 
 def parseMsgs (s : String) : Option (List Nat) :=
@@ -199,23 +222,49 @@ def parseMsgs (s : String) : Option (List Nat) :=
     | t :: _ => t.toNat?
     | _ => none
 
-def stepMitm (checkAny : Bool) (msgs ops : String) : String :=
+/-- B's side, frame by frame; for an answered message also: could B still reply when it got it?
+(after its first reported error `run` has returned and the inbound client is no longer in
+receiveHandler's table: "can't find client") -/
+def mitmB (cB : Conn) (ts : List Nat) (o : MitmOps) (n : Nat) : Nat → RState → List (Nat × Bool) → RState × List (Nat × Bool)
+  | 0, st, acc => (st, acc)
+  | fuel + 1, st, acc =>
+    let i := ts.length - (fuel + 1)
+    let t := ts.getD i 0
+    let tm := o.tab i
+    let tm := if i == n && !o.mirror.isEmpty && !o.damage then { tm with answer := true } else tm
+    let orig := goodFrame i t
+    let st1 := (tm.before ++ [tm.self.getD orig]).foldl (rstep cB) st
+    let got : Bool := (toSubscriber t st1.out).any (fun d => beNat d.value = i) && tm.self.isNone
+    let canReply : Bool := tm.answer && got && st1.errs == 0 && !st1.stalled
+    let after := tm.after.map (fun f => f.getD orig) ++ (if tm.bounce && canReply then [replyFrame i] else [])
+    let st2 := after.foldl (rstep cB) st1
+    mitmB cB ts o n fuel st2 (if tm.answer then acc ++ [(i, canReply)] else acc)
+
+def stepMitm (checkAny drains : Bool) (msgs ops : String) : String :=
   match parseMsgs msgs with
   | none => "bad-op"
   | some ts =>
     let ts := ts ++ [0]                      -- the sentinel, a Ping
     let n := ts.length - 1
     let opl := if ops == "-" then [] else ops.splitOn ","
-    let tab := opl.foldl (fun (acc : Option (Nat → Tamper)) op => acc.bind fun tab => applyOp n tab op) (some fun _ => {})
-    match tab with
+    match opl.foldl (fun (acc : Option MitmOps) op => acc.bind fun o => applyOp n o op) (some {}) with
     | none => "bad-op"
-    | some tab =>
-      let frames := (List.zip (List.range ts.length) ts).flatMap fun (i, t) =>
-        let tm := tab i
-        let orig := goodFrame i t
-        let after := tm.after.map fun f => f.getD orig
-        tm.before ++ [tm.self.getD orig] ++ after
-      showOut ts.length (recvAll (theConn checkAny) frames)
+    | some o =>
+      let (stB, answered) := mitmB (theConn checkAny drains) ts o n ts.length {} []
+      -- A's inbound stream on the same connection: the replies B could send, with the reflected
+      -- A→B frames just before the last one (they are sent when the last frame has gone through)
+      let mirrors := if o.damage then [] else o.mirror.map fun j => goodFrame j (ts.getD j 0)
+      let replies := answered.filter (fun a => a.2) |>.map (fun a => a.1)
+      let early := replies.filter (· ≠ n)
+      let late := replies.filter (· = n)
+      let cA := connA checkAny drains
+      let stA := (early.map replyFrame ++ mirrors ++ late.map replyFrame).foldl (rstep cA) {}
+      let toA := ((List.range nTypes).map fun t => (toSubscriber t stA.out).length).foldl (· + ·) 0
+      let rep := answered.map fun (i, _) =>
+        if stA.out.any (fun d => d.reply ∧ d.nonce = i ∧ beNat d.value = i) then "ok" else "err"
+      let aalive := if stA.crashed then "no" else "yes"
+      let reps := if rep.isEmpty then "-" else String.intercalate "," rep
+      showOut ts.length stB ++ s!" a={toA} aalive={aalive} rep={reps}"
 
 /-- `own <items>`: what the harness's own endpoint sends, well framed -/
 def ownFrame (i : Nat) (item : String) : Option Frame :=
@@ -236,16 +285,16 @@ def ownFrame (i : Nat) (item : String) : Option Frame :=
   | "P" => some (pack 7 1 [] (msgOf i t) i true)
   | _ => none
 
-def stepOwn (checkAny : Bool) (items : String) : String :=
+def stepOwn (checkAny drains : Bool) (items : String) : String :=
   let its := (if items == "-" then [] else items.splitOn ",") ++ ["G0"]
   match (List.zip (List.range its.length) its).mapM fun (i, it) => ownFrame i it with
   | none => "bad-op"
-  | some frames => showOut its.length (recvAll (theConn checkAny) frames)
+  | some frames => showOut its.length (recvAll (theConn checkAny drains) frames)
 
-def driverStep (checkAny : Bool) (line : String) : String :=
+def driverStep (checkAny drains : Bool) (line : String) : String :=
   match words line with
-  | ["mitm", msgs, ops] => stepMitm checkAny msgs ops
-  | ["own", items] => stepOwn checkAny items
+  | ["mitm", msgs, ops] => stepMitm checkAny drains msgs ops
+  | ["own", items] => stepOwn checkAny drains items
   | ["race", n] =>
     -- n independent honest connections with one message each (a failed handshake on ANOTHER
     -- connection is not an event of these connections)
